@@ -77,7 +77,6 @@ import warnings
 
 import sqlalchemy as sa
 from sqlalchemy import Column
-from sqlalchemy import func
 from sqlalchemy import insert
 from sqlalchemy import insert_sentinel
 from sqlalchemy import Integer
